@@ -248,7 +248,7 @@ pub fn build_all(dir: &Path, descs: &[RemoteDesc], baked: BTreeMap<usize, BTreeM
                             c.arg("-DNDEBUG");
                         }
                         c.arg(dd.join("drv.cc")).arg("-o").arg(&exe);
-                        match c.output() {
+                        match crate::compile::output_with_timeout(c, 900) {
                             Ok(o) if o.status.success() => (idx, asan, Ok(exe)),
                             Ok(o) => (idx, asan, Err(String::from_utf8_lossy(&o.stderr).lines().find(|l| l.contains("error")).unwrap_or("g++ failed").to_string())),
                             Err(e) => (idx, asan, Err(e.to_string())),
